@@ -9,6 +9,17 @@ from .base import BaseType, ImportPathList, MetaData, get_hash_string
 from .typing import metadata_to_typing
 
 
+def _python_string_literal(s: str) -> str:
+    """
+    Same as json.dumps but characters outside the BMP are escaped as \\UXXXXXXXX
+    (json escapes them as surrogate pairs which python string literals do not join back)
+    """
+    return '"' + ''.join(
+        json.dumps(c)[1:-1] if ord(c) < 0x10000 else f'\\U{ord(c):08x}'
+        for c in s
+    ) + '"'
+
+
 class SingleType(BaseType):
     _typing_cls = None
     __slots__ = ["_type", "_hash"]
@@ -267,7 +278,7 @@ class StringLiteral(BaseType):
             limit = options.get(self.TypeStyle.max_literals)
             if limit is None or len(self.literals) < limit:
                 parts = ', '.join(
-                    json.dumps(s)
+                    _python_string_literal(s)
                     for s in sorted(self.literals)
                 )
                 return [(Literal.__module__, 'Literal')], f"Literal[{parts}]"
